@@ -52,6 +52,15 @@ type StormCase struct {
 type StormDial struct {
 	Dur int  `json:"dur"` // virtual ticks the dial takes (0: returns at once)
 	OK  bool `json:"ok"`  // a fresh idle connection, else an error
+	// Net (OK dials): 0 a lazily connecting client that nobody connects (IDLE);
+	// 1 the dial function only returns once the connection is READY (a blocking
+	// dial; the peer is a gRPC server inside the bubble, over net.Pipe); 2 it
+	// calls Connect() and the transport dialer refuses (TRANSIENT_FAILURE,
+	// back-off in virtual time); 3 ... hangs (CONNECTING). The connection is in
+	// that state when its holders release it; closing it then involves the
+	// transport / the pending attempt, so the last release overlaps for longer
+	// with the requests that wake at the same virtual instant.
+	Net int `json:"net,omitempty"`
 }
 
 // StormCaller is one requester.
@@ -139,6 +148,7 @@ type storm struct {
 	maxDials  int
 	maxHold   int
 	viol      *verr
+	lis       *pipeListener // in-bubble server behind Net 1, nil if the case has no such dial
 	cs        []stormCallerState
 	labels    map[string]bool
 	xclosed   map[*grpc.ClientConn]bool // closed by a requester itself; recorded before the call
@@ -247,10 +257,41 @@ func (s *storm) dial(ctx context.Context, target string, opts ...grpc.DialOption
 	case d.OK:
 		// the spelling of the address is never parsed by gRPC; a transport is only
 		// attempted when a requester calls Connect() (X=4), and is refused
-		o := append(append([]grpc.DialOption(nil), opts...), grpc.WithContextDialer(func(context.Context, string) (net.Conn, error) {
+		netMode := mod(d.Net, 4)
+		o := append(append([]grpc.DialOption(nil), opts...), grpc.WithContextDialer(func(ctx context.Context, _ string) (net.Conn, error) {
+			switch {
+			case netMode == 1 && s.lis != nil:
+				a, b := net.Pipe()
+				select {
+				case s.lis.ch <- b:
+					return a, nil
+				case <-s.lis.done:
+				case <-ctx.Done():
+				}
+				a.Close()
+				b.Close()
+				return nil, errors.New("c16: in-bubble server gone")
+			case netMode == 3:
+				<-ctx.Done()
+				return nil, ctx.Err()
+			}
 			return nil, errors.New("c16: connection refused (scripted)")
 		}))
 		cc, err = grpc.NewClient("passthrough:///c16", o...)
+		if err == nil && netMode != 0 {
+			cc.Connect()
+			s.label("connected:dial-function-connects-" + []string{"", "and-waits-for-READY", "refused", "hanging"}[netMode])
+		}
+		if err == nil && netMode == 1 && s.lis != nil {
+			for st := cc.GetState(); st != connectivity.Ready; st = cc.GetState() {
+				if !cc.WaitForStateChange(ctx, st) {
+					// the context ended while the dial waited for READY
+					cc.Close()
+					cc, err, cancelled = nil, &stormErr{inv: inv, cause: ctx.Err()}, true
+					break
+				}
+			}
+		}
 	default:
 		err = &stormErr{inv: inv}
 	}
@@ -458,6 +499,8 @@ func (s *storm) caller(i int) {
 	}
 	if st := conn.GetState(); st == connectivity.TransientFailure || st == connectivity.Connecting {
 		s.label("outside:held-connection-" + st.String())
+	} else if st == connectivity.Ready {
+		s.label("connected:released-in-state-READY")
 	}
 	if conn.GetState() == connectivity.Shutdown && s.closedOutside(conn) {
 		s.label("outside:held-connection-closed-by-a-requester")
@@ -588,6 +631,18 @@ func runStormBubble(sc *StormCase) (stormStats, *verr) {
 	}
 	s.m = m
 	verifhook.Set(nil)
+	for _, d := range sc.Dials {
+		if d.OK && mod(d.Net, 4) == 1 && s.lis == nil {
+			s.lis = &pipeListener{ch: make(chan net.Conn), done: make(chan struct{})}
+			srv := grpc.NewServer()
+			go srv.Serve(s.lis)
+			defer func() {
+				srv.Stop()
+				s.lis.Close()
+				synctest.Wait()
+			}()
+		}
+	}
 	defer func() {
 		// whatever happened: no connection outlives the case
 		s.mu.Lock()
